@@ -367,6 +367,10 @@ func (t *tr) effectCallSt(ce *ast.CallExpr, cls string) ([]string, bool) {
 		buf := leanIdent(bid.Name)
 		var out []string
 		for _, a := range ce.Args[1:] {
+			if lines, ok := t.dest6(a, buf, wrap); ok { // translate6.go: []byte fields, []uint32 locals, string fields
+				out = append(out, lines...)
+				continue
+			}
 			op, ok := addrOperand(a)
 			if !ok {
 				// a []byte variable: BinaryRead fills it (len(data) bytes; an empty one is "invalid type")
